@@ -8,6 +8,7 @@ import (
 
 	"verifmon/internal/core"
 	"verifmon/internal/obs"
+	"verifmon/internal/ref"
 )
 
 // substTemplates: contexts in which an expression and the literal spelling of its value must behave alike (a number is
@@ -50,7 +51,7 @@ func substitutionCheck(w *core.W, mon, id string, c interface{}, src string, d *
 			db, okb := elem0(vb)
 			if oka && okb {
 				xa, xb := obs.DecOf(da), obs.DecOf(db)
-				same = (xa.IsNaN() && xb.IsNaN()) || (xa.Finite() == xb.Finite() && xa.Equal(xb))
+				same = sameNumber(xa, xb)
 			} else {
 				same = obs.SnapshotValues(va) == obs.SnapshotValues(vb) || numericallySame(va, vb)
 			}
@@ -62,6 +63,16 @@ func substitutionCheck(w *core.W, mon, id string, c interface{}, src string, d *
 		}
 	}
 	return true
+}
+
+func sameNumber(a, b ref.Dec) bool {
+	switch {
+	case a.IsNaN() || b.IsNaN():
+		return a.IsNaN() && b.IsNaN()
+	case !a.Finite() || !b.Finite():
+		return !a.Finite() && !b.Finite() && a.Neg == b.Neg
+	}
+	return a.Equal(b)
 }
 
 // numericallySame compares arrays of numbers element-wise by value.
@@ -87,7 +98,7 @@ func numericallySame(a, b interface{}) bool {
 			continue
 		}
 		xa, xb := obs.DecOf(da), obs.DecOf(db)
-		if !((xa.IsNaN() && xb.IsNaN()) || (xa.Finite() == xb.Finite() && xa.Equal(xb))) {
+		if !sameNumber(xa, xb) {
 			return false
 		}
 	}
